@@ -498,7 +498,7 @@ class C08(Prop):
             return
         src = g.choice(ts)
         v = g.t[src].val
-        kind = g.choice(["shape", "index", "axis", "setitem_shape", "setitem_index", "setitem_index", "out_shape", "reshape", "setshape", "bad_seed"])
+        kind = g.choice(["shape", "index", "axis", "setitem_shape", "setitem_index", "setitem_index", "out_shape", "reshape", "setshape", "setshape", "bad_seed"])
         if kind == "shape":
             bad = tuple(list(v.shape) + [v.shape[-1] + 1 if v.ndim else 2]) if v.ndim else (2, 3)
             other = {"n": enc_arr(np.ones((5, 7)))}
@@ -509,7 +509,7 @@ class C08(Prop):
         elif kind == "axis":
             g.emit({"k": "op", "op": "sum", "out": g.new_h(), "args": [{"t": src}], "p": {"axis": v.ndim + 1}, "spell": g.choice(["f", "m"]), "fail": 1})
         elif kind == "setshape":
-            g.emit({"k": "setshape", "tgt": src, "shape": [v.size + 1], "fail": 1})
+            g.emit({"k": "setshape", "tgt": src, "shape": self._bad_shape(g, v), "fail": 1})
         elif kind == "bad_seed":
             if not g.t[src].const and g.tracking:
                 g.emit({"k": "backward", "tgt": src, "seed": rand_seed_ref(g, g.r, v.shape, "bad"), "fail": 1})
@@ -522,7 +522,24 @@ class C08(Prop):
         elif kind == "out_shape":
             g.emit({"k": "inplace", "form": "ufunc", "op": "add", "tgt": src, "args": [{"n": enc_arr(np.ones((7, 5, 3)))}, {"c": 1.0}], "fail": 1})
         else:
-            g.emit({"k": "op", "op": "reshape", "out": g.new_h(), "args": [{"t": src}], "p": {"shape": [v.size + 1]}, "spell": g.choice(["f", "m"]), "fail": 1})
+            g.emit({"k": "op", "op": "reshape", "out": g.new_h(), "args": [{"t": src}], "p": {"shape": self._bad_shape(g, v)}, "spell": g.choice(["f", "m"]), "fail": 1})
+
+    @staticmethod
+    def _bad_shape(g, v):
+        """a shape NumPy rejects for `v`: wrong size, a -1 wildcard whose other dimensions do not
+        divide the size, two wildcards, or a zero-size shape for a non-empty array"""
+        n = int(v.size)
+        c = g.choice(["size", "wild", "wild", "wild", "wild2", "zero", "nd"])
+        if c == "wild" and n > 0:
+            k = next(k for k in range(2, n + 3) if n % k)
+            return g.choice([[-1, k], [k, -1]])
+        if c == "wild2":
+            return [-1, -1]
+        if c == "zero" and n > 0:
+            return [0]
+        if c == "nd" and n > 0:
+            return [n, 2]
+        return [n + 1]
 
     # ---------------------------------------------------------------------------------
     def observers(self, hist):
